@@ -477,7 +477,8 @@ def supporting(chk, P):
         a = [[canon(x) for x in P.call_arg_terms(po, bb)] for bb, t in po.calls() if callee_name(t)[0] == "std::vec::Vec::truncate"]
         chk.require(a == [["self.values", "Option::unwrap_or(Vec::pop(self.frame_stack), 0)"]], "TAB", "TAB:FramedMap::pop_frame", "truncates to the popped mark", "pop_frame truncates %s" % a)
     for fld, allowed in (("values", {FM + "set", FM + "pop_frame"}), ("frame_stack", {FM + "push_frame", FM + "pop_frame"})):
-        w = set(x[0].name.split("::{closure")[0] for x in P.field_writers("framed_map::FramedMap", fld))
+        # (the exchange of the two whole maps in swap_vars keeps each map's own invariant; it is pinned by the swap rules)
+        w = set(x[0].name.split("::{closure")[0] for x in P.field_writers("framed_map::FramedMap", fld) if not (x[3] == "mem_whole" and x[0].name == EC + "swap_vars"))
         chk.require(w <= allowed, "WHO", "WHO:FramedMap.%s-writers" % fld, str(sorted(w)), "FramedMap.%s mutated in %s" % (fld, sorted(w - allowed)))
     for fn, callee, args in ((EC + "set", FM + "set", ["self.vars", "name", "value"]), (EC + "push_frame", FM + "push_frame", ["self.vars"]), (EC + "pop_frame", FM + "pop_frame", ["self.vars"])):
         b = P.body(fn)
